@@ -19,13 +19,16 @@ MANIFEST = dict(
          "engine's span (Confirmed) — obeys the candidate contract, proved from line_locality_partial, C11's "
          "build_line_terminator_promise and candidate_never_skips). The same statement is proved for the CRLF terminator "
          "(c01_lines_reported_iff_content_matches_crlf, local look-around = CRLF line anchors + ASCII word assertions, "
-         "after the D1/D9 repairs; line_locality_crlf). The only non-structural hypothesis is span_ok (the regex engine "
+         "after the D1/D9 repairs; line_locality_crlf), for the incremental reader with any buffer capacity and read "
+         "fragmentation (c01_reader_lines_reported_iff_content_matches(_crlf), via Props/C02.v), and for --null-data "
+         "with no hypothesis on the pattern at all (c01_null_data_slice/_reader: a matcher advertising NUL always takes "
+         "the slow path). The only non-structural hypothesis is span_ok (the regex engine "
          "reports a leftmost match; regex-automata's search is not modelled; satisfiable: span_ok_satisfiable); that the "
          "fast-line literals are non-empty and free of the terminator is proved (literals_free_of_terminator: strip leaves "
          "no leaf producing it, the extractor only rearranges leaf bytes). Also line_locality_partial, "
          "path_selection_safe, strip_invisible_on_content, without_terminator_fixed_crlf; refuted with witnesses: D9, D1 "
          "(repaired), D17 (known). NOT covered by the theorem (tested only): Unicode word boundaries incl. -w in Unicode "
-         "mode (false in general: D17), LF anchors under --crlf, the NUL terminator (slow path only), the reader (roll-buffer) strategy. Tie to the code: "
+         "mode (false in general: D17), LF anchors under --crlf, read errors / binary detection. Tie to the code: "
          "end-to-end oracle — patterns (grammar, counted repetitions, case pairs), flags -i -S -s -w -x -F --crlf "
          "--null-data -v, several -e/-f, inputs with invalid UTF-8, bare CR, empty lines, missing final terminator — "
          "through real rg, the library searcher (slice, fragmented reader, passthru) and a reference built with "
